@@ -170,6 +170,7 @@ func (ans *answer) Return(e error) {
 		ans.c.mu.Unlock()
 		rl.release()
 		ans.pcalls.Wait()
+		verifSync(ans.c, "task-done")
 		ans.c.tasks.Done() // added by handleCall
 		return
 	}
@@ -179,6 +180,7 @@ func (ans *answer) Return(e error) {
 		select {
 		case <-ans.c.bgctx.Done():
 		default:
+			verifSync(ans.c, "task-done")
 			ans.c.tasks.Done() // added by handleCall
 			// Shut down from another goroutine: shutdown releases the
 			// connection's capabilities, and a server's Shutdown waits
@@ -206,6 +208,7 @@ func (ans *answer) Return(e error) {
 	ans.c.mu.Unlock()
 	rl.release()
 	ans.pcalls.Wait()
+	verifSync(ans.c, "task-done")
 	ans.c.tasks.Done() // added by handleCall
 }
 
